@@ -616,7 +616,41 @@ def rule_absent_auxv_tolerated(ctx, R="C11/absent-auxv-tolerated"):
     ctx.floor(R, "consumers of optional auxv values outside the linker-debug step", n, 2)
 
 
+def rule_stop_state_source(ctx, R="C11/stop-state-source"):
+    """`lists each failure that occurred ... an empty list when nothing failed` for the stop step: stop_process reports success exactly
+    when the kernel says the process is stopped.  The state it waits for is `Stat::state()` of procfs's own parser applied to
+    /proc/<pid>/stat (which finds the comm field by its LAST `)`: the name is printed unescaped and may contain `) S`), compared with
+    ProcState::Stopped, and that test governs the only Ok exit."""
+    from rules.c18 import literal_pieces
+    b = ctx.body(R, "linux::ptrace_dumper::PtraceDumper::stop_process")
+    if b is None:
+        return
+    o = Origin(b)
+    oks = sorted(Exits(b).ok_blocks())
+    ctx.floor(R, "success exits of stop_process", len(oks), 1)
+    for k, ob in enumerate(oks):
+        dnf = conditions(b, ob, origin=o, relevant=lambda a: a[0] == "discr" and any(q[0] == "call" and q[1].split("::")[-1] == "state" for q in walk(a)))
+        good = bool(dnf)
+        for c in dnf or []:
+            hit = False
+            for (a, v) in c:
+                st = [q for q in walk(a) if q[0] == "call" and q[1] == "procfs_core::process::Stat::state"]
+                src = [q for q in walk(a) if q[0] == "call" and q[1] in ("procfs_core::FromRead::from_file", "procfs_core::FromRead::from_read", "procfs_core::FromBufRead::from_buf_read")]
+                inner = a[1] if len(a) > 1 else None
+                on_value = isinstance(inner, tuple) and inner and inner[0] == "okval" and strip(inner)[0] == "call" and strip(inner)[1] == "procfs_core::process::Stat::state"
+                if st and src and sorted(literal_pieces(src[0])) == ["/proc/", "/stat"] and any(z == ("field", ("param", 1), "pid") for z in walk(src[0])) and on_value and v == PROCSTATE_STOPPED:
+                    hit = True
+            good = good and hit
+        ctx.check(good, R, ("ok-exit", k + 1), b.where(ob), "stop_process succeeds only when Stat::state() of /proc/<pid>/stat is Stopped",
+                  "stop_process can report success (or keep waiting) on something other than procfs's parsed state of /proc/<pid>/stat == Stopped: a hand-made parse of the stat line mistakes a `)` inside the process name for the end of the comm field")
+
+
+# procfs_core::process::ProcState (foreign enum, variants in declaration order: Running, Sleeping, Waiting, Zombie, Stopped, ...)
+PROCSTATE_STOPPED = 4
+
+
 def run(ctx):
+    rule_stop_state_source(ctx)
     rule_absent_auxv_tolerated(ctx)
     rule_every_step_attempted(ctx)
     rule_discarded_results(ctx)
